@@ -342,5 +342,50 @@ def r20_5(ctx):
                  "choice: a :ref: to a skipped member dangles", w.loc(mem[0])) if extra or skips else ctx.ok(construct, w.loc(mem[0])))
 
 
+def r20_6(ctx):
+    """R20.6 the condition printed on a select / set row is the Kconfig condition minus the `depends on` of the symbol that
+    *carries* the statement (those are ANDed into the statement's condition by _propagate_deps): rows of the documented
+    symbol's own statements strip its own direct_dep, `forced by` / `set by` rows strip the *source's* direct_dep. Stripping
+    another symbol's dependencies removes conjuncts that are genuinely part of the condition (the row claims the option
+    is forced in configurations where nothing is forced)."""
+    repo = ctx.repo
+    f = repo.func(f"{DOC}:write_menu_item")
+    ctx.analysed(f.qual)
+    helpers = {n.name: n for n in ast.walk(f.node) if isinstance(n, ast.FunctionDef) and n is not f.node}
+    n_rows = 0
+    for lp in ast.walk(f.node):
+        if not isinstance(lp, ast.For):
+            continue
+        it = ast.unparse(lp.iter)
+        tgt = [t.id for t in lp.target.elts if isinstance(t, ast.Name)] if isinstance(lp.target, ast.Tuple) else []
+        if not tgt:
+            continue
+        if "." in it and it.split(".")[1].split("(")[0] in ("selects", "sets", "implies", "weak_sets") and "(" not in it:
+            owner = it.split(".")[0]
+        elif ".get(" in it and ("selected_by" in it or "set_by" in it or "implied_by" in it):
+            owner = tgt[0]
+        else:
+            continue
+        calls = []
+        for st in lp.body:
+            for c in ast.walk(st):
+                if isinstance(c, ast.Call) and isinstance(c.func, ast.Name):
+                    if c.func.id == "_prepare_cond":
+                        calls.append(c)
+                    elif c.func.id in helpers:
+                        calls += [x for x in ast.walk(helpers[c.func.id]) if isinstance(x, ast.Call) and isinstance(x.func, ast.Name) and x.func.id == "_prepare_cond"]
+        if not calls:
+            continue
+        n_rows += 1
+        construct = f"write_menu_item/rows over `{it[:40]}` strip the dependencies of the statement's owner"
+        dd = [next((ast.unparse(k.value) for k in c.keywords if k.arg == "direct_deps"), None) for c in calls]
+        want = f"{owner}.direct_dep"
+        (ctx.ok(construct, f.loc(lp), owner=owner) if all(d == want for d in dd) else
+         ctx.bad(construct, f"direct_deps={dd} where the statement belongs to `{owner}`: the printed condition loses conjuncts that are not implied by "
+                 "`Symbol can be set when`", f.loc(calls[0])))
+    if n_rows < 4:
+        raise AnalysisError(f"only {n_rows} select/set row loops found in write_menu_item")
+
+
 def rules():
-    return [("R20.1", r20_1, 8), ("R20.2", r20_2, 3), ("R20.4", r20_4, 5), ("R20.3", r20_3, 7), ("R20.5", r20_5, 3)]
+    return [("R20.6", r20_6, 4), ("R20.1", r20_1, 8), ("R20.2", r20_2, 3), ("R20.4", r20_4, 5), ("R20.3", r20_3, 7), ("R20.5", r20_5, 3)]
